@@ -1,0 +1,58 @@
+//go:build verif
+
+package reorderer
+
+// Machine-checked contracts for /verif (govc). Comment-only: compiled only with -tags verif, adds no code.
+
+// C33: data-structure invariant of the reorderer (every held subgroup is stored under its own group id, which is
+// beyond the last delivered one; the byte counter is the sum of the held payload sizes; after every push the
+// count and the byte counter are within the configured limits) and per-call postconditions of Push / flushUpTo.
+
+//@ func subGroupPayloadSize
+//@   property C33
+//@   safety -ovf
+//@   modifies nothing
+//@   requires sg != nil
+//@   loop 1 invariant n >= 0
+//@   ensures [non-negative] result >= 0
+//@   assumed-ensures [weight-of-the-subgroup] result == sgWeight(sg)
+
+//@ func (r *Reorderer) flushUpTo
+//@   property C33
+//@   safety -ovf
+//@   requires reordInv0(r) && maxGroupID > r.curGroupID
+//@   loop 1 invariant fresh(ids) && r.pending == old(r.pending) && r.curGroupID == old(r.curGroupID) && r.pendingBytes == old(r.pendingBytes)
+//@   loop 1 invariant forall(a, 0, len(ids), has(r.pending, ids[a]) && visited(r.pending, ids[a]) && ids[a] > r.curGroupID && ids[a] <= maxGroupID)
+//@   loop 1 invariant forall(a, 0, len(ids), forall(b, a+1, len(ids), ids[a] != ids[b]))
+//@   loop 1 invariant forall(n, uint64, visited(r.pending, n) && has(r.pending, n) && n > r.curGroupID && n <= maxGroupID ==> exists(a, 0, len(ids), ids[a] == n))
+//@   loop 2 invariant 0 <= _i && _i <= len(ids) && r.pending == old(r.pending) && r.curGroupID == old(r.curGroupID) && r.pendingBytes == mapsum(r.pending)
+//@   loop 2 invariant forall(a, _i, len(ids), has(r.pending, ids[a]))
+//@   loop 2 invariant forall(a, 0, _i, !has(r.pending, ids[a]))
+//@   loop 2 invariant forall(n, uint64, has(r.pending, n) ==> old(has(r.pending, n)) && r.pending[n] == old(r.pending[n]))
+//@   loop 2 invariant len(r.pending) == old(len(r.pending)) - _i && r.pendingBytes <= old(r.pendingBytes)
+//@   loop 2 invariant exists(a, 0, _i, ids[a] == maxGroupID) ==> r.pendingBytes <= old(r.pendingBytes) - sgWeight(old(r.pending[maxGroupID]))
+//@   loop 2 invariant len(out) == _i && fresh(out)
+//@   loop 2 invariant _i >= 1 && ids[_i-1] == maxGroupID ==> out[_i-1] == old(r.pending[maxGroupID])
+//@   loop 3 invariant len(r.pending) <= old(len(r.pending)) - len(ids) && r.pendingBytes <= old(r.pendingBytes)
+//@   loop 3 invariant old(has(r.pending, maxGroupID)) ==> r.pendingBytes <= old(r.pendingBytes) - sgWeight(old(r.pending[maxGroupID]))
+//@   loop 3 invariant len(out) >= len(ids) && fresh(out)
+//@   loop 3 invariant old(has(r.pending, maxGroupID)) ==> len(ids) >= 1 && out[len(ids)-1] == old(r.pending[maxGroupID])
+//@   loop 3 invariant r.pending == old(r.pending) && r.curGroupID >= maxGroupID && r.pendingBytes == mapsum(r.pending)
+//@   loop 3 invariant forall(n, uint64, has(r.pending, n) ==> old(has(r.pending, n)) && r.pending[n] == old(r.pending[n]) && n > r.curGroupID)
+//@   loop 3 invariant forall(n, uint64, has(r.pending, n) ==> r.pending[n] != nil && r.pending[n].Header.GroupID == n)
+//@   ensures [invariant-kept] reordInv0(r) && r.curGroupID >= maxGroupID && r.pending == old(r.pending)
+//@   ensures [only-removes] forall(n, uint64, has(r.pending, n) ==> old(has(r.pending, n)) && r.pending[n] == old(r.pending[n]))
+//@   ensures [held-count-shrinks] old(has(r.pending, maxGroupID)) ==> len(r.pending) <= old(len(r.pending)) - 1
+//@   ensures [held-bytes-shrink] r.pendingBytes <= old(r.pendingBytes) && (old(has(r.pending, maxGroupID)) ==> r.pendingBytes <= old(r.pendingBytes) - sgWeight(old(r.pending[maxGroupID])))
+//@   ensures [the-requested-group-is-handed-on] old(has(r.pending, maxGroupID)) ==> exists(a, 0, len(result), result[a] == old(r.pending[maxGroupID]))
+//@   ensures [everything-up-to-the-limit-is-flushed] forall(n, uint64, n <= maxGroupID ==> !has(r.pending, n))
+
+//@ func (r *Reorderer) Push
+//@   property C33
+//@   safety -ovf
+//@   requires sg != nil && reordInv(r) && (!r.initialized ==> len(r.pending) == 0)
+//@   loop 1 invariant r.pending == heapold(r.pending) && r.curGroupID == old(r.curGroupID) && r.initialized
+//@   loop 1 invariant sg.Header.GroupID == r.curGroupID + 1 ==> countInRange == b2i(visited(r.pending, sg.Header.GroupID))
+//@   ensures [never-fails] result1 == nil
+//@   ensures [invariant-and-limits-after-every-push] reordInv(r) && r.initialized
+//@   ensures [next-in-sequence-is-delivered-immediately] old(r.initialized) && sg.Header.GroupID == old(r.curGroupID) + 1 ==> exists(a, 0, len(result0), result0[a] == sg)
